@@ -297,6 +297,7 @@ func init() {
 	families["policy"] = func(rng *Rng, n int, out *Out, replay string) {
 		for sc := -nDirected; sc < n; sc++ {
 			r := NewRng(rng.U64())
+			out.Emit("reset", "ok", "reset", false) // a new history: bin/check reports the first failure of each predicate per history
 			w := policyWorld(r)
 			if sc >= 0 {
 				w.baseline(r)
